@@ -261,9 +261,10 @@ pub fn run(ctx: &Ctx, rep: &mut Report) {
     }
 
     // (2) all arrangements over the alphabet
-    let al = alphabet(thorough, ctx.seed);
     let kind = monitor::kind_id("arrangement");
     for n in 2..=7usize {
+        // 16 words everywhere in thorough; in quick 16 words up to six slots and 12 words for seven
+        let al = alphabet(thorough || n <= 6, ctx.seed);
         let t0 = Instant::now();
         let total = (al.len() as u64).pow(n as u32);
         let nparts = 64.min(total as usize);
